@@ -77,6 +77,9 @@ inductive Stmt (ν : Type) where
   | forv (x : ν) (id : Nat) (body : List (Stmt ν))  -- for x in [<lambda id>] { … }
   | matchv (x : ν) (id : Nat) (body : List (Stmt ν))   -- match <lambda id> { x -> { … } }
   | lam (x : ν) (id : Nat) (body : List (Stmt ν))      -- ((x) -> { … })(<lambda id>)
+  | marms (arms : List (Option (ν × Nat) × List (Stmt ν)))   -- match … { p₁ -> { … }  p₂ -> { … } … }: each arm
+                                                       -- binds at most one name (`some (x, id)`) and has its own scope
+  | ifelse (a b : List (Stmt ν))                       -- if … { a } else { b }
   | pmatch (pre : Option ν) (ty : ν) (v : ν)           -- match … { [pre.]ty.v -> … }   (qualified variant pattern)
   | euse (pre : Option ν) (ty : ν) (v : ν)             -- [pre.]ty.v                     (variant as an expression)
 
@@ -290,6 +293,20 @@ def resolveStmt (w : World ν) (forScoped : Bool) (kids : Table ν) (st : SymTab
     (st, (resolveStmts w forScoped kids (newScope (extend (newScope st) x (Decl.loc id))) body).2)
   | .pmatch pre ty v => (st, [resolvePat w kids pre ty v])
   | .euse pre ty v => (st, [resolveEnumExpr w st pre ty v])
+  | .marms arms => (st, resolveArms w forScoped kids st arms)
+  | .ifelse a b =>
+    (st, (resolveStmts w forScoped kids (newScope st) a).2 ++ (resolveStmts w forScoped kids (newScope st) b).2)
+
+/-- `ExprKind::Match`: `for arm in arms { let symbol_table = symbol_table.new_scope(); pat; stmt }` —
+    every arm starts from the table of the `match` itself -/
+def resolveArms (w : World ν) (forScoped : Bool) (kids : Table ν) (st : SymTab ν) :
+    List (Option (ν × Nat) × List (Stmt ν)) → List (Res ν)
+  | [] => []
+  | (some (x, id), body) :: rest =>
+    (resolveStmts w forScoped kids (newScope (extend (newScope st) x (Decl.loc id))) body).2 ++
+      resolveArms w forScoped kids st rest
+  | (none, body) :: rest =>
+    (resolveStmts w forScoped kids (newScope (newScope st)) body).2 ++ resolveArms w forScoped kids st rest
 
 def resolveStmts (w : World ν) (forScoped : Bool) (kids : Table ν) (st : SymTab ν) : List (Stmt ν) → SymTab ν × List (Res ν)
   | [] => (st, [])
